@@ -1183,6 +1183,14 @@ func (ex *Exec) makeInterface(st *State, v *Val, from, to types.Type) *Val {
 	tsort := shapeOf(to).Sort
 	tid := IntLit(int64(ex.eng.typeID(from)), SInt)
 	sh := shapeOf(from)
+	if v.K == VAddr {
+		// interior pointer (address of a field or element) converted to an interface
+		r := recast(v.leaves()[0], tsort)
+		st.assume(Eq(App("dyntype", SInt, recast(r, SIface)), tid))
+		nv := &Val{K: VScalar, T: r, Ty: to, Box: v, BoxTy: from}
+		ex.boxes[r] = &boxInfo{val: v, ty: from}
+		return nv
+	}
 	if sh.K == ShScalar && sh.Sort == SRef {
 		r := recast(v.T, tsort)
 		if r.Op == "int" {
